@@ -68,3 +68,12 @@ func (b *BStr) UnmarshalJSON(data []byte) error {
 	*b = BStr(s)
 	return nil
 }
+
+// GuardT is Guard for one enumerated case: it also registers the case with the
+// hang watchdog, so that a call that never returns is reported as a violation
+// of that case instead of stalling the check.
+func GuardT(harness string, trace any, f func() *Failure) *Failure {
+	done := InFlight(func() Case { return Case{Harness: harness, Trace: J(trace), Msg: "enumerated case"} })
+	defer done()
+	return Guard(f)
+}
